@@ -278,29 +278,47 @@ func connectionInUseOutlivesReadTimeouts(r *Result, thorough bool) {
 	s, err := newSrv(NewRefFS(), absnfs.ExportOptions{})
 	must(err)
 	defer s.Close()
-	cl, sv := net.Pipe()
-	go absnfs.VerifServeConnTimeouts(s.S, s.H, &peerConn{Conn: sv, remote: &net.TCPAddr{IP: net.ParseIP("127.0.0.1"), Port: 900}}, 400*time.Millisecond, 400*time.Millisecond)
-	p := &Peer{c: cl, xid: 500, ip: "127.0.0.1"}
-	defer p.Close()
 	r.noteCase("connection-in-use", true)
 	r.count("connection-in-use")
-	t0 := time.Now()
-	for i := 0; time.Since(t0) < 1400*time.Millisecond; i++ {
-		var err error
-		switch i % 3 {
-		case 0:
-			_, _, _, err = p.call(progNFS, 3, 0, rootCred(), nil)
-		case 1:
-			_, _, _, err = p.call(progMount, 3, 1, rootCred(), xdrOpaque([]byte("/")))
-		default:
-			_, _, _, err = p.call(progNFS, 3, 1, rootCred(), fh(1))
+	// the verdict needs a client that really kept calling: when this process was descheduled for longer than the
+	// margin between two calls (a loaded machine), the server's timeout may legitimately have fired — such an attempt
+	// says nothing and is repeated
+	for attempt := 0; attempt < 4; attempt++ {
+		cl, sv := net.Pipe()
+		go absnfs.VerifServeConnTimeouts(s.S, s.H, &peerConn{Conn: sv, remote: &net.TCPAddr{IP: net.ParseIP("127.0.0.1"), Port: 900 + attempt}}, 400*time.Millisecond, 400*time.Millisecond)
+		p := &Peer{c: cl, xid: 500, ip: "127.0.0.1"}
+		t0 := time.Now()
+		var callErr error
+		maxGap := time.Duration(0)
+		last := time.Now()
+		for i := 0; time.Since(t0) < 1400*time.Millisecond && callErr == nil; i++ {
+			if g := time.Since(last); g > maxGap {
+				maxGap = g
+			}
+			switch i % 3 {
+			case 0:
+				_, _, _, callErr = p.call(progNFS, 3, 0, rootCred(), nil)
+			case 1:
+				_, _, _, callErr = p.call(progMount, 3, 1, rootCred(), xdrOpaque([]byte("/")))
+			default:
+				_, _, _, callErr = p.call(progNFS, 3, 1, rootCred(), fh(1))
+			}
+			last = time.Now()
+			if callErr == nil {
+				time.Sleep(120 * time.Millisecond)
+			}
 		}
-		if err != nil {
-			r.violate(Violation{Class: "C28/connection-cut-while-in-use", What: fmt.Sprintf("a connection on which a call was sent every 120 ms (read timeout 400 ms) stopped being served %v after it was opened: %v", time.Since(t0).Round(10*time.Millisecond), err),
+		age := time.Since(t0)
+		p.Close()
+		if callErr == nil {
+			break
+		}
+		if maxGap < 250*time.Millisecond {
+			r.violate(Violation{Class: "C28/connection-cut-while-in-use", What: fmt.Sprintf("a connection on which a call was sent every 120 ms (longest silence %v, read timeout 400 ms) stopped being served %v after it was opened: %v", maxGap.Round(time.Millisecond), age.Round(10*time.Millisecond), callErr),
 				Ops: []string{"connection-in-use: NULL/MNT/GETATTR every 120 ms on one connection, read timeout 400 ms"}})
 			return
 		}
-		time.Sleep(120 * time.Millisecond)
+		r.Notes = append(r.Notes, fmt.Sprintf("connection-in-use: attempt %d inconclusive (this process paused for %v between two calls)", attempt, maxGap.Round(time.Millisecond)))
 	}
 	if !thorough {
 		return
@@ -320,7 +338,7 @@ func connectionInUseOutlivesReadTimeouts(r *Result, thorough bool) {
 		return
 	}
 	defer conn.Close()
-	t0 = time.Now()
+	t0 := time.Now()
 	for xid := uint32(1); time.Since(t0) < 36*time.Second; xid++ {
 		conn.SetDeadline(time.Now().Add(5 * time.Second))
 		if _, err := rmCall(conn, xid, progNFS, 3, 0, nil); err != nil {
